@@ -14,7 +14,7 @@ ASSUMPTIONS = [
 ]
 SHARDS = {"quick": 8, "thorough": 16}
 TIME_BUDGET = {"quick": 60, "thorough": 600}
-FLOORS = {"quick": {"evaluations": 500, "distinct": 50, "bytes_compared": 10000}, "thorough": {"evaluations": 5000, "distinct": 100}}
+FLOORS = {"quick": {"evaluations": 500, "distinct": 50, "bytes_compared": 10000, "interleave_switches": 300, "late_answers": 100}, "thorough": {"evaluations": 5000, "distinct": 100}}
 
 APIS = ["shell", "exec_out", "streaming_shell", "root"]
 EXH_STRINGS = ["a€b𝄞c".encode(), "é€\n".encode() + b"\xe2\x82", b"\xf0\x9f\x98\x80\xc3\xa9x", "日本".encode() + b"\xff" + "ß".encode()]
@@ -32,6 +32,10 @@ def gen_cases(tier, seed):
             for api, decode in (("shell", True), ("streaming_shell", True), ("exec_out", False)) if tier == "thorough" else (("shell", True), ("streaming_shell", True)):
                 yield {"kind": "comp", "string": si, "mask": mask, "api": api, "decode": decode, "impl": "sync" if (mask + si) % 2 == 0 else "async"}
                 idx += 1
+    for i in range(150 if tier == "quick" else 3000):
+        yield {"kind": "late", "seed": "%d:late%d" % (seed, i), "impl": ("sync", "async")[i % 2], "api": APIS[(i // 2) % 3], "decode": bool((i // 6) % 2)}
+    for i in range(300 if tier == "quick" else 6000):
+        yield {"kind": "interleave", "seed": "%d:il%d" % (seed, i), "impl": ("sync", "async")[i % 2]}
     for i in range(n_random):
         yield {"kind": "rand", "i": i, "seed": "%d:%d" % (seed, i), "impl": ("sync", "async")[i % 2], "api": APIS[(i // 2) % 4], "decode": bool((i // 8) % 2),
                "cls": gen.CONTENT_CLASSES[(i // 16) % len(gen.CONTENT_CLASSES)]}
@@ -46,7 +50,133 @@ def expected(api, decode, chunks):
     return whole.decode("utf8", "backslashreplace") if decode else whole
 
 
+def run_interleave(case):
+    """several streaming_shell generators of ONE thread / task are consumed alternately: each must yield exactly its own chunks"""
+    import asyncio
+    from vlib import vclock
+    impl = case["impl"]
+    rng = gen.rng_for("C01il", case["seed"])
+    dims = gen.common_dims(rng)
+    dims["noise"] = [x for x in dims["noise"] if x != "bg"]
+    dims["remote"] = rng.choice(["swap", "swap", "same", "small", "random"])
+    dims["id_start"] = rng.choice([0, 0, 2, 0xFFFFFFFC])
+    sess = gen.make_session(impl, dims, case["seed"])
+    stats = {"bytes_compared": 0, "chunks": 0, "max_chunks": 0, "monitor_side_observations": 0, "interleaved_generators": 0, "interleave_switches": 0}
+    viol = []
+    try:
+        n = rng.choice([2, 2, 3])
+        decode = rng.random() < 0.4
+        scripts = []
+        for i in range(n):
+            chunks = [("g%d-%d:" % (i, k)).encode() + bytes(rng.getrandbits(8) for _ in range(rng.choice([0, 1, 5, 40]))) for k in range(rng.randint(0, 4))]
+            sess.sim.scripts[b"shell:g%d" % i] = list(chunks)
+            scripts.append(chunks)
+        got = [[] for _ in range(n)]
+        done = [False] * n
+        errors = []
+        vclock.install(sess.clock)
+        if impl == "sync":
+            gens = [sess.dev.streaming_shell("g%d" % i, decode=decode) for i in range(n)]
+
+            def advance(i):
+                try:
+                    got[i].append(next(gens[i]))
+                except StopIteration:
+                    done[i] = True
+        else:
+            gens = [sess.dev.streaming_shell("g%d" % i, decode=decode) for i in range(n)]
+
+            def advance(i):
+                async def one():
+                    try:
+                        got[i].append(await gens[i].__anext__())
+                    except StopAsyncIteration:
+                        done[i] = True
+                sess.loop.run_until_complete(one())
+        last = None
+        guard = 0
+        while not all(done) and guard < 200:
+            guard += 1
+            live = [i for i in range(n) if not done[i]]
+            # a generator that has received all its chunks is finished at once: its CLSE must not be left for another generator's
+            # read to pick up (that would be the known finding K1 of C06, which is not this property's business)
+            must = [i for i in live if len(got[i]) >= len(scripts[i])]
+            i = must[0] if must else rng.choice(live)
+            if last is not None and i != last:
+                stats["interleave_switches"] += 1
+            last = i
+            try:
+                advance(i)
+            except Exception as e:  # noqa
+                errors.append((i, e))
+                done[i] = True
+        where = "%s, %d interleaved streaming_shell generators, remote ids %s, id start %d" % (impl, n, dims["remote"], dims["id_start"])
+        for (i, e) in errors:
+            viol.append({"mechanism": "interleave-raised:%s" % type(e).__name__, "detail": "%s: generator %d raised %s: %s after %d of %d chunks" % (where, i, type(e).__name__, str(e)[:100], len(got[i]), len(scripts[i]))})
+        for i in range(n):
+            exp = [c.decode("utf8", "backslashreplace") for c in scripts[i]] if decode else scripts[i]
+            if not any(e[0] == i for e in errors) and got[i] != exp:
+                viol.append({"mechanism": "interleave-wrong-output", "detail": "%s: generator %d yielded %r, device wrote %r" % (where, i, got[i][:4], scripts[i][:4])})
+            elif got[i] == exp:
+                stats["bytes_compared"] += sum(len(c) for c in scripts[i])
+            stats["chunks"] += len(scripts[i])
+        stats["interleaved_generators"] = n
+        sig = "il|%s|%d|%s|%s" % (impl, n, dims["remote"], ",".join(str(len(s_)) for s_ in scripts)) if stats["interleave_switches"] else None
+        sample = {"case": case, "dims": dims, "chunks_per_generator": [len(s_) for s_ in scripts], "switches": stats["interleave_switches"]} if case["seed"].endswith("il7") else None
+        return {"sig": sig, "violations": viol[:3], "stats": stats, "sample": sample}
+    finally:
+        sess.dispose()
+
+
+def run_late(case):
+    """an OPEN that the device answers only after the host gave up: the late answer must not leak into the next command"""
+    impl, api, decode = case["impl"], case["api"], case["decode"]
+    rng = gen.rng_for("C01late", case["seed"])
+    dims = gen.common_dims(rng)
+    dims["noise"] = [x for x in dims["noise"] if x != "bg"]
+    sess = gen.make_session(impl, dims, case["seed"])
+    stats = {"bytes_compared": 0, "chunks": 0, "max_chunks": 0, "monitor_side_observations": 0, "late_answers": 0}
+    viol = []
+    try:
+        sim = sess.sim
+        sim.scripts[b"shell:slow"] = [b"SLOW-OUTPUT-1", b"SLOW-OUTPUT-2"]
+        sim.mute_next_opens = 1
+        if rng.random() < 0.5:
+            sess.core.stall = "eof"        # the transport reports empty reads instead of raising: the library's own deadline ends the wait
+        first = sess.call("shell", "slow", decode=False, read_timeout_s=1.0, transport_timeout_s=0.5)
+        sess.core.stall = None
+        if first.ok or first.exc_name() not in ("AdbTimeoutError", "TcpTimeoutException"):
+            viol.append({"mechanism": "late-first-call", "detail": "a command whose OPEN is never answered in time gave %s" % first.brief(100)})
+        sim.mute_streams.clear()          # now the device answers the abandoned OPEN
+        stats["late_answers"] = 1
+        data = gen.content(rng.choice(["ascii", "utf8", "random", "mixed"]), rng)
+        chunks = gen.partition(data, rng)
+        dest = (b"exec:" if api == "exec_out" else b"shell:") + b"fast"
+        sim.scripts[dest] = list(chunks)
+        out = sess.call(api, "fast", decode=decode)
+        exp = expected(api, decode, chunks)
+        where = "%s after an abandoned OPEN whose answer arrives late (%s, decode=%s)" % (api, impl, decode)
+        if not out.ok:
+            viol.append({"mechanism": "raised:%s" % out.exc_name(), "detail": "%s raised %s" % (where, out.brief(150))})
+        elif out.value != exp:
+            viol.append({"mechanism": "wrong-output", "detail": "%s returned %s, device wrote %r on that stream" % (where, out.brief(100), [bytes(c[:30]) for c in chunks[:4]])})
+        else:
+            stats["bytes_compared"] = sum(len(c) for c in chunks)
+        stats["chunks"] = len(chunks)
+        for mv in sess.monitor.of("C14"):
+            # the new command re-used the id of the abandoned stream, which is still open at the device: their packets cannot be told apart
+            viol.append({"mechanism": "stream-id-shared-with-abandoned-stream", "detail": "%s: %s" % (where, mv.detail)})
+        return {"sig": "late|%s|%s|%s|%d" % (impl, api, decode, min(len(chunks), 3)) if chunks else None, "violations": viol[:3], "stats": stats,
+                "sample": {"case": case, "first": first.brief(60), "second": out.brief(60)} if case["seed"].endswith("late3") else None}
+    finally:
+        sess.dispose()
+
+
 def run_case(case):
+    if case["kind"] == "interleave":
+        return run_interleave(case)
+    if case["kind"] == "late":
+        return run_late(case)
     api, decode, impl = case["api"], case["decode"], case["impl"]
     if case["kind"] == "comp":
         s = EXH_STRINGS[case["string"]]
